@@ -42,7 +42,7 @@ struct ArchiveStreams : Family {
 			Line op;
 			uint64_t c = r.below(100);
 			uint64_t a = r.below(8);
-			if (c < 14 || i < 2) { op = mkline("op", "open"); op.set("i", r.below(64)).set("byname", r.below(2)).set("case", r.below(6)); }
+			if (c < 14 || i < 2) { op = mkline("op", "open"); op.set("i", r.below(64)).set("byname", r.below(2)).set("case", r.below(6)).set("via", r.below(2)); }
 			else if (c < 40) { op = mkline("op", "read"); op.set("a", a).set("n", "~" + std::to_string(r.below(100000))); }
 			else if (c < 48) { op = mkline("op", "partial"); op.set("a", a).set("n", "~" + std::to_string(r.below(100000))); }
 			else if (c < 58) { op = mkline("op", "seek"); op.set("a", a).set("p", "~" + std::to_string(r.below(100000))); }
@@ -50,9 +50,9 @@ struct ArchiveStreams : Family {
 			else if (c < 69) { op = mkline("op", "slice"); op.set("a", a).set("s", "~" + std::to_string(r.below(100000))).set("n", "~" + std::to_string(r.below(100000))); }
 			else if (c < 73) { op = mkline("op", "copy"); op.set("a", a); }
 			else if (c < 77) { op = mkline("op", "drop"); op.set("a", a); }
-			else if (c < 83) { op = mkline("op", "arcname"); op.set("i", r.below(64)); }
-			else if (c < 89) { op = mkline("op", "arcindex"); op.set("i", r.below(64)).set("case", r.below(6)); }
-			else if (c < 96) { op = mkline("op", "arcextract"); op.set("i", r.below(64)); }
+			else if (c < 83) { op = mkline("op", "arcname"); op.set("i", r.below(64)).set("via", r.below(2)); }
+			else if (c < 89) { op = mkline("op", "arcindex"); op.set("i", r.below(64)).set("case", r.below(6)).set("via", r.below(2)); }
+			else if (c < 96) { op = mkline("op", "arcextract"); op.set("i", r.below(64)).set("via", r.below(2)); }
 			else { op = mkline("op", "arcbad"); op.set("i", r.chance(1, 2) ? "~" + std::to_string(r.below(3)) : std::string("0xffffffffffffffff")); }
 			p.ops.push_back(op);
 		}
@@ -88,6 +88,11 @@ struct ArchiveStreams : Family {
 		std::string what;
 		Out o = callLib(plan, [&] { if (kind == "clm") ar = std::make_unique<Archive::ClmFile>(path); else ar = std::make_unique<Archive::VolFile>(path); }, &what);
 		if (o != OkOut) ctx.fail("C13.backend-equal", "opening a reference-encoded archive failed: " + what);
+		// a second archive object on the same file: its streams and calls interleave with the first one's
+		std::unique_ptr<Archive::ArchiveFile> ar2;
+		o = callLib(plan, [&] { if (kind == "clm") ar2 = std::make_unique<Archive::ClmFile>(path); else ar2 = std::make_unique<Archive::VolFile>(path); }, &what);
+		if (o != OkOut) ctx.fail("C13.backend-equal", "opening the same archive a second time failed: " + what);
+		Archive::ArchiveFile* arMain = ar.get();
 		std::vector<std::unique_ptr<SActor>> actors;
 		bool moved = false;
 		auto checkAll = [&](SActor* acting, const std::string& after) {
@@ -104,11 +109,14 @@ struct ArchiveStreams : Family {
 			const std::string& v = op.verb;
 			ctx.schedNote(v + op.get("a", ""));
 			SActor* acting = nullptr;
+			// which archive object serves this step
+			std::unique_ptr<Archive::ArchiveFile>& arSel = (op.u("via", 0) % 2) ? ar2 : ar;
+			(void)arMain;
 			if (v == "open") {
 				if (ms.empty() || actors.size() >= 10) { ctx.event("skip"); continue; }
 				size_t i = static_cast<size_t>(op.u("i") % ms.size());
 				auto a = std::make_unique<SActor>();
-				o = callLib(plan, [&] { a->obj = op.u("byname") ? ar->OpenStream(caseVariant(ms[i].name, op.u("case"))) : ar->OpenStream(i); }, &what);
+				o = callLib(plan, [&] { a->obj = op.u("byname") ? arSel->OpenStream(caseVariant(ms[i].name, op.u("case"))) : arSel->OpenStream(i); }, &what);
 				if (o != OkOut || !a->obj) ctx.fail("C13.confined", "OpenStream(" + std::to_string(i) + ") on a valid archive failed: " + what);
 				a->data = ms[i].stored;
 				a->member = i;
@@ -162,23 +170,23 @@ struct ArchiveStreams : Family {
 				if (v == "arcbad") {
 					std::string tok = op.get("i", "~0");
 					size_t i = tok[0] == '~' ? ms.size() + static_cast<size_t>(parseU64(tok.substr(1))) : static_cast<size_t>(parseU64(tok));
-					o = callLib(plan, [&] { auto s = ar->OpenStream(i); }, &what);
+					o = callLib(plan, [&] { auto s = arSel->OpenStream(i); }, &what);
 					if (o == OkOut) ctx.fail("C13.create-refuse", "OpenStream(" + std::to_string(i) + ") on an archive with " + std::to_string(ms.size()) + " members succeeded");
-					Out o2 = callLib(plan, [&] { ar->ExtractFile(i, "_x/bad.bin"); }, &what);
+					Out o2 = callLib(plan, [&] { arSel->ExtractFile(i, "_x/bad.bin"); }, &what);
 					if (o2 == OkOut) ctx.fail("C13.create-refuse", "ExtractFile with an out-of-range index succeeded");
 				} else if (!ms.empty()) {
 					size_t i = static_cast<size_t>(op.u("i") % ms.size());
 					if (v == "arcname") {
 						std::string nm; uint32_t sz = 0;
-						o = callLib(plan, [&] { nm = ar->GetName(i); sz = ar->GetSize(i); }, &what);
+						o = callLib(plan, [&] { nm = arSel->GetName(i); sz = arSel->GetSize(i); }, &what);
 						if (o != OkOut || nm != ms[i].name || sz != ms[i].size) ctx.fail("C13.backend-equal", "listing member " + std::to_string(i) + " while streams are open gave '" + nm + "'/" + std::to_string(sz));
 					} else if (v == "arcindex") {
 						size_t idx = SIZE_MAX;
-						o = callLib(plan, [&] { idx = ar->GetIndex(caseVariant(ms[i].name, op.u("case"))); }, &what);
+						o = callLib(plan, [&] { idx = arSel->GetIndex(caseVariant(ms[i].name, op.u("case"))); }, &what);
 						if (o != OkOut || idx != i) ctx.fail("C13.backend-equal", "lookup of member " + std::to_string(i) + " while streams are open returned " + std::to_string(idx));
 					} else if (ms[i].kind == 0x100 || ms[i].kind == 0x103 || kind == "clm") {
 						std::string outp = "_x/e" + std::to_string(oi) + ".bin";
-						o = callLib(plan, [&] { ar->ExtractFile(i, outp); }, &what);
+						o = callLib(plan, [&] { arSel->ExtractFile(i, outp); }, &what);
 						if (o != OkOut) ctx.fail("C13.backend-equal", "ExtractFile(" + std::to_string(i) + ") while streams are open failed: " + what);
 						std::vector<uint8_t> f;
 						disk::get(outp, f);
@@ -192,7 +200,7 @@ struct ArchiveStreams : Family {
 			checkAll(acting, op.str());
 		}
 		if (actors.size() >= 3) ctx.count("probe.three_or_more_member_streams_live");
-		{ Armed a; actors.clear(); ar.reset(); }
+		{ Armed a; actors.clear(); ar.reset(); ar2.reset(); }
 		ctx.nontrivial = moved;
 		ctx.count("library_calls", plan.ops.size());
 	}
